@@ -89,12 +89,15 @@ def sweep(ctx, n_hist, n_ops):
             elif kind == "rot":
                 n = rng.choice([1, 2, 3])
                 rot = R.random(rng=nps) if rng.random() < 0.5 else R.random(n, rng=nps)
+                give_none = rng.random() < 0.15  # rotation=None is documented as the unit rotation: same path effects
+                if give_none:
+                    rot = R.identity()
                 a = rng.random()
                 anchor = None if a < 0.3 else (0 if a < 0.4 else (nps.uniform(-2, 2, 3) if a < 0.7 else nps.uniform(-2, 2, (rng.choice([1, 2, 4]), 3))))
                 hist.append(("rot", rot.as_quat().tolist(), None if anchor is None else np.asarray(anchor).tolist(), start))
-                obj.rotate(rot, anchor=anchor, start="auto" if start is None else start)
+                obj.rotate(None if give_none else rot, anchor=anchor, start="auto" if start is None else start)
                 P, Q = ref_rotate(P, Q, rot, anchor, start)
-                branch["rot"] = branch.get("rot", 0) + 1
+                branch["rot-none" if give_none else "rot"] = branch.get("rot-none" if give_none else "rot", 0) + 1
             elif kind == "setpos":
                 n = rng.choice([1, 2, 4])
                 v = nps.uniform(-2, 2, (n, 3))
